@@ -47,7 +47,7 @@ func reasonOfRaw(a Atom, be *BigEval) (kind, text string) {
 	if c, _ := callAndResult(a.V); c != nil && a.Want == False {
 		switch calleeName(c) {
 		case "slices.ContainsFunc", "slices.Contains":
-			return "guard", "#i|int|>="
+			return "guard", "#i|int|>=|len(" + desc(callArgs(c)[0]) + ")"
 		}
 	}
 	if g, ok := parseGuard(a, nil); ok && g.Kind == "int" && g.BoundA.isConst() {
@@ -56,7 +56,7 @@ func reasonOfRaw(a Atom, be *BigEval) (kind, text string) {
 			case "slices.IndexFunc", "slices.Index":
 				k := g.BoundA.C
 				if (g.Rel == "<" && k <= 0) || (g.Rel == "==" && k == -1) || (g.Rel == "<=" && k < 0) {
-					return "guard", "#i|int|>="
+					return "guard", "#i|int|>=|len(" + desc(callArgs(c)[0]) + ")"
 				}
 			}
 		}
@@ -105,8 +105,25 @@ func reasonOfRaw(a Atom, be *BigEval) (kind, text string) {
 				}
 			}
 		}
+		swapped := false
 		if other != "" && guardRank(other) == guardRank(subj) && other < subj {
 			subj, rel = other, relFlip[rel]
+			swapped = true
+		}
+		// an integer test also names what it compares with (an off-by-one in a bound is another reason): the relation
+		// is first brought to its canonical strictness (x > b is x >= b+1, x <= b is x < b+1)
+		if g.Kind == "int" && !swapped {
+			b := g.BoundA
+			if b.isConst() && (b.C == 9223372036854775807 || b.C == -9223372036854775808) {
+				return "guard", fmt.Sprintf("%s|%s|%s|%s", subj, g.Kind, rel, b.String())
+			}
+			switch rel {
+			case ">":
+				rel, b = ">=", b.add(affConst(1))
+			case "<=":
+				rel, b = "<", b.add(affConst(1))
+			}
+			return "guard", fmt.Sprintf("%s|%s|%s|%s", subj, g.Kind, rel, b.String())
 		}
 		return "guard", fmt.Sprintf("%s|%s|%s", subj, g.Kind, rel)
 	}
